@@ -6,6 +6,8 @@
 
 package quic
 
+import "time"
+
 // Contracts, spec functions and lemma harnesses for the deductive verifier in /verif (govc).
 // This file is compiled only with -tags verif; it adds no behaviour to the package.
 
@@ -484,8 +486,11 @@ func lemmaFrameStreamsBlocked(w *packetWriter, typ streamType, max int64) (ok bo
 //@ func consumeMaxStreamDataFrame(b)
 //@   requires len(b) >= 1
 //@   inline
-//@ func consumeMaxStreamsFrame(b)
+//@ func consumeMaxStreamsFrame(b) (typ, max, n)
 //@   requires len(b) >= 1
+//@   ensures  n == -1 || (2 <= n && n <= len(b))
+//@   ensures  n >= 0 ==> 0 <= max && max <= 1<<60
+//@   ensures  n >= 0 ==> (typ == bidiStream && b[0] == frameTypeMaxStreamsBidi) || (typ == uniStream && b[0] == frameTypeMaxStreamsUni)
 //@   inline
 //@ func consumeStreamDataBlockedFrame(b)
 //@   requires len(b) >= 1
@@ -511,11 +516,16 @@ func lemmaFrameStreamsBlocked(w *packetWriter, typ streamType, max int64) (ok bo
 //@ func consumeNewTokenFrame(b)
 //@   requires len(b) >= 1
 //@   inline
-//@ func consumeStreamFrame(b)
+//@ func consumeStreamFrame(b) (id, off, fin, data, n)
 //@   requires len(b) >= 1
+//@   ensures  n == -1 || (1 <= n && n <= len(b))
+//@   ensures  n >= 0 ==> 0 <= off && off + int64(len(data)) < 1<<62
+//@   ensures  n >= 0 ==> fin == (b[0]&0x01 != 0)
 //@   inline
-//@ func consumeNewConnectionIDFrame(b)
+//@ func consumeNewConnectionIDFrame(b) (seq, retire, connID, resetToken, n)
 //@   requires len(b) >= 1
+//@   ensures  n == -1 || (1 <= n && n <= len(b))
+//@   ensures  n >= 0 ==> 0 <= retire && retire <= seq && 1 <= len(connID) && len(connID) <= 20
 //@   inline
 //@ func consumePathChallengeFrame(b)
 //@   requires len(b) >= 1
@@ -812,3 +822,23 @@ func lemmaRangesetSub2(a0, b0, a1, b1, start, end, v int64) (wf0, okWF, okMem bo
 //@   havocs except Stream.id, Conn.side
 //@ func (*atomicBits[streamState]).load(a) (r)
 //@   trusted
+
+// ---------------------------------------------------------------------------
+// Transport parameters (property C28): every accepted parameter block has values within the
+// ranges of RFC 9000 section 18.2; no input makes the parser panic.
+//
+//@ pure
+func tpInRange(p transportParameters) bool {
+	return p.maxUDPPayloadSize >= 1200 &&
+		0 <= p.ackDelayExponent && p.ackDelayExponent <= 20 &&
+		0 <= p.maxAckDelay && p.maxAckDelay < (1<<14)*time.Millisecond &&
+		p.initialMaxStreamsBidi <= 1<<60 && p.initialMaxStreamsUni <= 1<<60 &&
+		p.activeConnIDLimit >= 2 &&
+		0 <= p.maxIdleTimeout && p.maxIdleTimeout <= (1<<32)*time.Millisecond
+}
+
+//@ func unmarshalTransportParams(params) (p, err)
+//@   ensures err == nil ==> tpInRange(p)
+//@   loop 1 invariant tpInRange(p)
+//@   allocates
+//@   abstract
